@@ -857,3 +857,221 @@ func wholeProgramBankDebits(r *Run) {
 		"DelegateCoinsFromAccountToModule is called by something other than the staking keeper's Delegate: "+strings.Join(extraDM, ", ")+" — locked/unvested coins can leave the account around the delegation checks of C08 R3/R4")
 	r.Count("W5 SDK bank premise clauses checked", 6)
 }
+
+// ---- premises of the quick rules, re-derived from the dependencies' source (thorough tier) ----
+
+// wholeProgramBurnSources (C14 thorough): rule W6 — the redirected set is complete for what staking and gov destroy.
+func wholeProgramBurnSources(r *Run) {
+	P := r.P
+	r.Rule("W6", "whole-program premise (cosmos-sdk x/staking, x/gov, x/slashing, x/evidence with bodies): every BurnCoins call these modules make names, as a constant, one of the accounts the Haqq bank keeper redirects (gov, bonded_tokens_pool, not_bonded_tokens_pool) — the case set of C14 R1 is complete for slashed stake and burned deposits; a burn with a non-constant or other module name in those packages is reported")
+	w, err := loadWhole(P.RepoDir, P.Tags)
+	if err != nil {
+		r.Fail("whole-program load failed: %v", err)
+		return
+	}
+	redirected := map[string]bool{"gov": true, "bonded_tokens_pool": true, "not_bonded_tokens_pool": true}
+	n := 0
+	found := map[string]bool{}
+	for f := range w.Funcs {
+		if f.Blocks == nil {
+			continue
+		}
+		pp := fnPkgPath(f)
+		isMod := false
+		for _, m := range []string{"x/staking/keeper", "x/gov/keeper", "x/slashing/keeper", "x/evidence/keeper", "x/gov", "x/staking"} {
+			if pp == "github.com/cosmos/cosmos-sdk/"+m {
+				isMod = true
+			}
+		}
+		if !isMod {
+			continue
+		}
+		for _, b := range f.Blocks {
+			for _, in := range b.Instrs {
+				c, ok := in.(ssa.CallInstruction)
+				if !ok {
+					continue
+				}
+				ci := callInfo(c)
+				if ci.Name != "BurnCoins" {
+					continue
+				}
+				args := callArgs(c)
+				// (ctx, moduleName, amt) — with the receiver first for static calls
+				var modArg ssa.Value
+				for _, a := range args {
+					if bt, ok := a.Type().Underlying().(*types.Basic); ok && bt.Kind() == types.String {
+						modArg = a
+						break
+					}
+				}
+				n++
+				name, isConst := "", false
+				if modArg != nil {
+					name, isConst = constString(modArg)
+				}
+				pos := w.Fset.Position(c.Pos())
+				where := fmt.Sprintf("%s:%d", pos.Filename[strings.LastIndex(pos.Filename, "/pkg/mod/")+1:], pos.Line)
+				inst := strings.TrimPrefix(f.String(), "github.com/cosmos/cosmos-sdk/") + "#BurnCoins"
+				if isConst {
+					found[name] = true
+				}
+				r.Check(isConst && redirected[name], "W6", inst, where, "burns from "+name+" (redirected)",
+					fmt.Sprintf("a staking/gov/slashing/evidence burn names %q (constant: %v), which the Haqq bank keeper does not redirect: coins these modules destroy would leave circulation", name, isConst))
+			}
+		}
+	}
+	r.Count("W6 BurnCoins calls in staking/gov/slashing/evidence", n)
+	r.Floor("W6", "BurnCoins calls in the SDK modules whose burns are redirected", n, 3)
+	for m := range redirected {
+		if !found[m] {
+			r.Note("W6: no SDK burn names %q on this tree (the redirect case exists but has no source)", m)
+		}
+	}
+}
+
+// wholeProgramAnteBeforeMsgs (C06 thorough): rule W7 — baseapp runs the installed ante handler before any message.
+func wholeProgramAnteBeforeMsgs(r *Run) {
+	P := r.P
+	r.Rule("W7", "whole-program premise (cosmos-sdk baseapp with bodies): in (*BaseApp).runTx every path to runMsgs passes an error-checked call of app.anteHandler, except over the edge on which app.anteHandler == nil (C06 R6 shows NewHaqq installs one)")
+	w, err := loadWhole(P.RepoDir, P.Tags)
+	if err != nil {
+		r.Fail("whole-program load failed: %v", err)
+		return
+	}
+	rt := w.byName["(*github.com/cosmos/cosmos-sdk/baseapp.BaseApp).runTx"]
+	if rt == nil || rt.Blocks == nil {
+		r.Fail("whole-program premise: baseapp.runTx not found with a body")
+		return
+	}
+	isAnteField := func(v ssa.Value) bool {
+		return backSlice(v).HasField("BaseApp", "anteHandler")
+	}
+	var anteCalls []ssa.CallInstruction
+	eachInstr(rt, func(in ssa.Instruction) {
+		if c, ok := in.(ssa.CallInstruction); ok && !c.Common().IsInvoke() && c.Common().StaticCallee() == nil {
+			if isAnteField(c.Common().Value) {
+				anteCalls = append(anteCalls, c)
+			}
+		}
+	})
+	nilEq, _ := condEdges(rt, func(x, y ssa.Value) bool { return isAnteField(x) && isNilConst(y) })
+	isAnte := func(in ssa.Instruction) bool {
+		for _, c := range anteCalls {
+			if ssa.Instruction(c) == in {
+				return true
+			}
+		}
+		return false
+	}
+	isRunMsgs := isCallMatching(func(ci CallInfo) bool { return ci.Name == "runMsgs" })
+	wit := PathQuery{Fn: rt, Block: isAnte, Target: isRunMsgs, DelEdge: edgeSet(nilEq)}.Search()
+	handled := len(anteCalls) > 0
+	for _, c := range anteCalls {
+		if !errHandled(c) {
+			handled = false
+		}
+	}
+	r.Check(wit == nil && handled && len(findCalls(rt, func(ci CallInfo) bool { return ci.Name == "runMsgs" })) > 0, "W7", "baseapp.runTx#ante-before-msgs", "", "the ante handler (error-checked) precedes runMsgs on every path where one is installed",
+		"in the pinned SDK's runTx messages can run without the ante handler having passed: the route/reject/limiter chain of C06 would not gate execution", w.witnessW(wit)...)
+}
+
+func (w *WProg) witnessW(path []ssa.Instruction) []string {
+	var out []string
+	for _, in := range path {
+		if p := in.Pos(); p.IsValid() {
+			q := w.Fset.Position(p)
+			out = append(out, fmt.Sprintf("%s:%d", q.Filename[strings.LastIndex(q.Filename, "/")+1:], q.Line))
+		}
+	}
+	return out
+}
+
+// wholeProgramAckCommit (C10 thorough): rule W8 — ibc core keeps the application's writes only for a successful acknowledgement.
+func wholeProgramAckCommit(r *Run) {
+	P := r.P
+	r.Rule("W8", "whole-program premise (ibc-go core with bodies): in (core/keeper.Keeper).RecvPacket the application callback OnRecvPacket runs on ctx.CacheContext() and the write function of that cache context is called only over the edge on which the acknowledgement is nil or ack.Success() is true — so the error acknowledgement that C10 R5 requires after a failed conversion really discards the half-done conversion")
+	w, err := loadWhole(P.RepoDir, P.Tags)
+	if err != nil {
+		r.Fail("whole-program load failed: %v", err)
+		return
+	}
+	rp := w.byName["(github.com/cosmos/ibc-go/v7/modules/core/keeper.Keeper).RecvPacket"]
+	if rp == nil || rp.Blocks == nil {
+		r.Fail("whole-program premise: ibc core RecvPacket not found with a body")
+		return
+	}
+	// the OnRecvPacket call and the cache context it receives
+	var cb ssa.CallInstruction
+	eachInstr(rp, func(in ssa.Instruction) {
+		if c, ok := in.(ssa.CallInstruction); ok && c.Common().IsInvoke() && c.Common().Method.Name() == "OnRecvPacket" {
+			cb = c
+		}
+	})
+	if cb == nil {
+		r.Bad("W8", "ibc-core.RecvPacket#callback", "", "RecvPacket no longer calls the application's OnRecvPacket")
+		return
+	}
+	var cacheCall *ssa.Call
+	for _, a := range cb.Common().Args {
+		if ex, ok := stripValue(a).(*ssa.Extract); ok && ex.Index == 0 {
+			if c, ok := ex.Tuple.(*ssa.Call); ok && callInfo(c).Name == "CacheContext" {
+				cacheCall = c
+			}
+		}
+		// the context may be reloaded from a local: look through the slice
+		if cacheCall == nil && namedName(a.Type()) == "Context" {
+			backSlice(a).Any(func(v ssa.Value) bool {
+				if c, ok := v.(*ssa.Call); ok && callInfo(c).Name == "CacheContext" && instrMayPrecede(c, cb) {
+					cacheCall = c
+				}
+				return false
+			})
+		}
+	}
+	if cacheCall == nil {
+		r.Bad("W8", "ibc-core.RecvPacket#cache-context", "", "the application callback does not run on a context obtained from CacheContext()")
+		return
+	}
+	// calls of a write function after the callback: values of func() type that derive from a CacheContext call
+	var writes []ssa.Instruction
+	seenCB := false
+	for _, b := range rp.Blocks {
+		for _, in := range b.Instrs {
+			if in == ssa.Instruction(cb) {
+				seenCB = true
+			}
+			c, ok := in.(ssa.CallInstruction)
+			if !ok || c.Common().IsInvoke() || c.Common().StaticCallee() != nil {
+				continue
+			}
+			if _, isB := c.Common().Value.(*ssa.Builtin); isB {
+				continue
+			}
+			if sig, ok := c.Common().Value.Type().Underlying().(*types.Signature); ok && sig.Params().Len() == 0 && sig.Results().Len() == 0 {
+				if backSlice(c.Common().Value).HasCall(func(ci CallInfo) bool { return ci.Name == "CacheContext" }) && blockReachesMemo(cb.Block(), b) && (b != cb.Block() || seenCB) {
+					writes = append(writes, in)
+				}
+			}
+		}
+	}
+	ackVal := cb.Value()
+	okEdges, _ := guardPassEdges(rp, func(cond ssa.Value) (bool, bool) {
+		if c, ok := cond.(*ssa.Call); ok && c.Common().IsInvoke() && c.Common().Method.Name() == "Success" && backSlice(c.Common().Value).Has(ackVal) {
+			return true, true
+		}
+		return false, false
+	})
+	nilEq, _ := condEdges(rp, func(x, y ssa.Value) bool { return backSlice(x).Has(ackVal) && isNilConst(y) })
+	isWrite := func(in ssa.Instruction) bool {
+		for _, x := range writes {
+			if x == in {
+				return true
+			}
+		}
+		return false
+	}
+	wit := PathQuery{Fn: rp, Start: cb, Target: isWrite, DelEdge: edgeSet(append(append([]Edge{}, okEdges...), nilEq...))}.Search()
+	r.Check(len(writes) > 0 && len(okEdges) > 0 && wit == nil, "W8", "ibc-core.RecvPacket#write-only-on-success", "", fmt.Sprintf("cache context written only where ack == nil or ack.Success() (%d write site(s) after the callback)", len(writes)),
+		"in the pinned ibc-go the application's cached writes can be committed for an unsuccessful acknowledgement (or are never committed): the error acknowledgement of C10 R5 would not undo a half-done conversion", w.witnessW(wit)...)
+}
